@@ -208,9 +208,37 @@ func RunRapid(t *rapid.T, kind string, cfg Cfg, g GenCfg, after func(e *Engine, 
 		for _, c := range wideFan {
 			op.Body = append(op.Body, Op{Kind: "handle", Method: e.Cfg.Methods[0], Pattern: "/w/" + string(c)})
 		}
+		// a parameter and a catch-all among the 55 siblings, then writes that go through those two edges once the node is that wide
+		op.Body = append(op.Body, Op{Kind: "handle", Method: e.Cfg.Methods[0], Pattern: "/w/{p}"}, Op{Kind: "handle", Method: e.Cfg.Methods[0], Pattern: "/w/*{c}"})
+		h.Ops = append(h.Ops, op)
+		fail(e.Step(op))
+		op = Op{Kind: "updates", End: "ok", Body: []Op{
+			{Kind: "handle", Method: e.Cfg.Methods[0], Pattern: "/w/{p}/x"},
+			{Kind: "handle", Method: e.Cfg.Methods[0], Pattern: "/w/*{c}/y"},
+			{Kind: "update", Method: e.Cfg.Methods[0], Pattern: "/w/{p}"},
+		}}
 		h.Ops = append(h.Ops, op)
 		fail(e.Step(op))
 		stats.Class("history-starts-on-a-node-with-55-children")
+	} else if gen.Chance(t, 1, 16, "deepchain") {
+		// or on a chain of 30 nested routes, every level a route of its own (deeper than the iterators' preallocated stacks),
+		// under the last method of the configuration, which is then truncated and partly registered again
+		m := e.Cfg.Methods[len(e.Cfg.Methods)-1]
+		op := Op{Kind: "updates", End: "ok"}
+		p := "/d"
+		for i := 0; i < 30; i++ {
+			p += "/" + string(wideFan[i])
+			op.Body = append(op.Body, Op{Kind: "handle", Method: m, Pattern: p})
+		}
+		h.Ops = append(h.Ops, op)
+		fail(e.Step(op))
+		op = Op{Kind: "truncate", Methods: []string{m}}
+		h.Ops = append(h.Ops, op)
+		fail(e.Step(op))
+		op = Op{Kind: "updates", End: "ok", Body: []Op{{Kind: "handle", Method: m, Pattern: "/d/0/1/2"}, {Kind: "handle", Method: m, Pattern: "/d/0/1"}}}
+		h.Ops = append(h.Ops, op)
+		fail(e.Step(op))
+		stats.Class("history-starts-on-a-chain-of-30-nested-routes-then-truncate")
 	}
 	t.Repeat(map[string]func(*rapid.T){
 		"step": func(t *rapid.T) {
